@@ -150,6 +150,17 @@ type funcCtx struct {
 	body   *ast.BlockStmt
 	pkg    *pkgInfo
 	seenGo bool // a go statement was already passed (constructor phase over)
+
+	// captured-locals analysis (function-local variables shared between goroutines)
+	parent  *funcCtx  // enclosing body of a literal
+	top     *funcCtx  // the declared function the body lives in (itself for a declaration)
+	declPos token.Pos // extent of the declaration (top only)
+	declEnd token.Pos
+	role    string    // literals: "" runs on the enclosing goroutine, "go" launched by a go statement, "callback" handed to other code
+	multi   bool      // "go": launched by several go statements or by one inside a loop
+	goPos   token.Pos // "go": the earliest go statement that launches it
+	loopPos token.Pos // "go": innermost loop around that go statement (0 = none)
+	extPos  token.Pos // literals: start of the literal (parameters included)
 }
 
 type callSite struct {
@@ -189,6 +200,7 @@ func main() {
 	coqOut := flag.String("coq", "", "Coq output")
 	jsonOut := flag.String("json", "", "JSON output")
 	name := flag.String("name", "access_table", "name of the Coq definition")
+	flag.StringVar(&instrDir, "instr", "", "also write instrumented copies of the scanned sources (and overlay.json) here")
 	flag.Parse()
 	targets := flag.Args()
 
@@ -253,6 +265,11 @@ func main() {
 	for _, pi := range infos {
 		indexTypes(pi)
 	}
+	// Metrics.geoipdb (written by LoadGeoipDatabases on SIGHUP, read by UpdateCountryStats): tracked since /repo 8c17ea8
+	// takes the lock in LoadGeoipDatabases; lib/checks/c20.py passes VERIF_C20_GEOIP_RELOAD (default 1), 0 leaves it out
+	if os.Getenv("VERIF_C20_GEOIP_RELOAD") != "0" {
+		trackedList = append(trackedList, struct{ pkg, typ, name string }{"/broker", "Metrics", "geoipdb"})
+	}
 	for _, tr := range trackedList {
 		found := false
 		for _, pi := range infos {
@@ -302,7 +319,9 @@ func main() {
 					continue
 				}
 				obj, _ := pi.info.Defs[fd.Name].(*types.Func)
-				fc := &funcCtx{name: funcName(fd), obj: obj, body: fd.Body, pkg: pi}
+				fc := &funcCtx{name: funcName(fd), obj: obj, body: fd.Body, pkg: pi, declPos: fd.Pos(), declEnd: fd.End()}
+				fc.top = fc
+				scanLits(fd, pi)
 				ln := strings.ToLower(fd.Name.Name)
 				fc.isCtor = fd.Recv == nil && (strings.HasPrefix(ln, "new") || strings.HasPrefix(ln, "init"))
 				if obj != nil {
@@ -374,13 +393,8 @@ func main() {
 				h[k] = true
 			}
 		}
-		if r.Kind != "read" { // a shared (read) hold of an RWMutex protects reads only
-			for k := range h {
-				if strings.HasSuffix(k, "#R") && !h[strings.TrimSuffix(k, "#R")] {
-					delete(h, k)
-				}
-			}
-		}
+		// "name#R" = held at least in read mode.  The rows say what is held, in which mode; that a
+		// shared (read) hold protects plain reads only is decided by the Coq discipline (guards).
 		r.Held = h.sorted()
 		key := r.Site + "|" + r.Field + "|" + r.Kind + "|" + strings.Join(r.Held, ",")
 		if seen[key] {
@@ -396,8 +410,10 @@ func main() {
 		return out[i].Site < out[j].Site
 	})
 	writeCoq(*coqOut, *name, out)
+	writeInstrumented(infos)
 	sort.Strings(lost)
-	js, _ := json.MarshalIndent(map[string]interface{}{"rows": out, "coverage_lost": lost}, "", " ")
+	js, _ := json.MarshalIndent(map[string]interface{}{"rows": out, "coverage_lost": lost, "captured_locals": capturedLocals(),
+		"example": exampleStats}, "", " ")
 	if err := os.WriteFile(*jsonOut, js, 0644); err != nil {
 		die(err)
 	}
@@ -450,8 +466,9 @@ func indexTypes(pi *pkgInfo) {
 
 type walker struct {
 	fc      *funcCtx
-	silent  bool // fixpoint pre-passes over loop bodies record nothing
-	dropAll bool // control flow not understood: no lock is certainly held any more
+	silent  bool      // fixpoint pre-passes over loop bodies record nothing
+	dropAll bool      // control flow not understood: no lock is certainly held any more
+	anchor  token.Pos // start of the innermost statement that sits in a statement list (instrumenter)
 }
 
 func (w *walker) pos(p token.Pos) string {
@@ -472,9 +489,12 @@ func (w *walker) eff(held lockset) lockset {
 
 // block walks statements in order and returns the lock set after the last one
 func (w *walker) block(list []ast.Stmt, held lockset) lockset {
+	saved := w.anchor
 	for _, s := range list {
+		w.anchor = s.Pos()
 		held = w.stmt(s, held)
 	}
+	w.anchor = saved
 	return held
 }
 
@@ -527,6 +547,7 @@ func (w *walker) stmt(s ast.Stmt, held lockset) lockset {
 	case *ast.ExprStmt:
 		if call, ok := st.X.(*ast.CallExpr); ok {
 			if name, op := w.lockCall(call); op != "" {
+				w.instrLock(st, call, name, op)
 				held = held.copy()
 				switch op {
 				case "Lock":
@@ -592,11 +613,13 @@ func (w *walker) stmt(s ast.Stmt, held lockset) lockset {
 		w.expr(st.Value, held, "read")
 		return held
 	case *ast.GoStmt:
+		w.instrFork(st)
 		w.call(st.Call, held, true)
 		w.fc.seenGo = true
 		return held
 	case *ast.DeferStmt:
-		if _, op := w.lockCall(st.Call); op == "Unlock" || op == "RUnlock" {
+		if name, op := w.lockCall(st.Call); op == "Unlock" || op == "RUnlock" {
+			w.instrDeferUnlock(st, name, op)
 			return held // stays held to the end of the function
 		}
 		if _, op := w.lockCall(st.Call); op != "" {
@@ -721,6 +744,9 @@ func (w *walker) exprx(e ast.Expr, held lockset, mode string, deep bool) {
 			if name, ok := trackedObj[o]; ok {
 				w.recordAt(x.Pos(), name, mode, held, x, deep)
 			}
+			if v, ok := o.(*types.Var); ok {
+				w.localAccess(x, v, mode, held, deep)
+			}
 			if fn, ok := o.(*types.Func); ok {
 				valueUsed[fn] = true // a function used as a value can be called from anywhere
 			}
@@ -796,7 +822,10 @@ func (w *walker) exprx(e ast.Expr, held lockset, mode string, deep bool) {
 		w.call(x, held, false)
 	case *ast.FuncLit:
 		// a function value: runs who knows when, with no lock certainly held
-		fc := &funcCtx{name: w.fc.name + "$lit@" + w.pos(x.Pos()), isLit: true, body: x.Body, pkg: w.fc.pkg}
+		fc := &funcCtx{name: w.fc.name + "$lit@" + w.pos(x.Pos()), isLit: true, body: x.Body, pkg: w.fc.pkg, parent: w.fc, top: w.fc.top, extPos: x.Pos()}
+		if li := litInfos[x]; li != nil {
+			fc.role, fc.multi, fc.goPos, fc.loopPos = li.role, li.multi, li.goPos, li.loopPos
+		}
 		if !w.silent {
 			(&walker{fc: fc}).block(x.Body.List, lockset{})
 		}
@@ -1063,6 +1092,7 @@ func (w *walker) record(p token.Pos, name, mode string, held lockset, e ast.Expr
 	if w.fc.isCtor && !w.fc.isLit && !w.fc.seenGo && e != nil && w.baseIsFreshLocal(e) && mode != "atomic" {
 		kind = "init"
 	}
+	w.instrAccess(name, mode, e)
 	rows = append(rows, &row{Site: w.pos(p), Fn: w.fc.name, Field: name, Kind: kind, local: w.eff(held).copy(), ctx: w.fc})
 }
 
@@ -1088,6 +1118,9 @@ func writeCoq(path, name string, out []*row) {
 		fmt.Fprintf(&b, "  mkAccess %s %s %s %s [%s]%s\n", coqStr(r.Site), coqStr(r.Fn), coqStr(r.Field), kinds[r.Kind], strings.Join(hs, "; "), sep)
 	}
 	b.WriteString("].\n")
+	if name == "access_table" {
+		b.WriteString(exampleCoq(out))
+	}
 	if err := os.WriteFile(path, []byte(b.String()), 0644); err != nil {
 		die(err)
 	}
